@@ -76,6 +76,8 @@ structure KCfg where
 def KCfg.current : KCfg := { cls := false, nested := true }
 /-- /repo as it is now -/
 def KCfg.proposed : KCfg := { cls := true, nested := true }
+/-- /repo as it is (9c2c165; c5dc777 takes the key after the run — the structure does not move in a run) -/
+def KCfg.now : KCfg := KCfg.proposed
 /-- the seeded change C05-2 -/
 def KCfg.shallow : KCfg := { cls := false, nested := false }
 
